@@ -496,12 +496,19 @@ bridge(f"{E}::EcCurve.Add",
        "eltp(self, result) == gadd(self, eltp(self, p), eltp(self, q)))")
 
 
+macro("redp", ["c", "p"], "(p[0] is None or (0 <= p[0] and p[0] < c.mod and 0 <= p[1] and p[1] < c.mod))")
+
+
 def _add_inf_clauses():
-  """Add's two infinity postconditions (proved in its value pass) made visible to callers."""
+  """Add's two infinity postconditions (proved in its value pass) made visible to callers, and: reduced operands give a
+  reduced result (Add, Double: proved in their value passes)."""
   from pyvc.contracts import REGISTRY, Clause
   c = REGISTRY[f"{E}::EcCurve.Add"]
-  for t in ("implies(p[0] is None, result == q)", "implies(p[0] is not None and q[0] is None, result == p)"):
+  for t in ("implies(p[0] is None, result == q)", "implies(p[0] is not None and q[0] is None, result == p)",
+            "implies(redp(self, p) and redp(self, q), redp(self, result))"):
     c.caller_ensures.append(Clause(t))
+  d = REGISTRY[f"{E}::EcCurve.Double"]
+  d.caller_ensures.append(Clause("redp(self, result)"))
 
 
 _add_inf_clauses()
@@ -519,6 +526,101 @@ class Subtract:
              ("C11", "implies(q[0] is None, result == p)"),
              ("C11", "implies(p[0] is None and q[0] is not None, result[0] == q[0] and result[1] == (0 - q[1]) % self.mod)"),
              ("C11", "implies(onp(self, p) and onp(self, q), onp(self, result) and "
-                     "eltp(self, result) == gadd(self, eltp(self, p), gneg(self, eltp(self, q))))")]
+                     "eltp(self, result) == gadd(self, eltp(self, p), gneg(self, eltp(self, q))))"),
+             ("C11", "implies(redp(self, p) and redp(self, q), redp(self, result))")]
   return_hints = [("C11", ax("gneg_zero", "gzero(self)"))]
   props = ["C11"]
+
+
+NEGF = f"{E}::EcCurve.Negate"
+SUBF = f"{E}::EcCurve.Subtract"
+_Pi = "elt(self, points[wi][0], points[wi][1])"
+_Pq = "elt(self, points[wq][0], points[wq][1])"
+_DONE = "(res[wi] is not None and res[wq] is not None)"
+
+
+@contract(f"{E}::EcCurve.BatchDLOfDifferences#completeness")
+class BatchDLOfDifferencesComplete:
+  """COMPLETENESS of the pairwise search for two keys of the batch (second contract on the function): for all indexes
+  wq < wi and every d with 0 < |d| < max_diff and d * G != 0, if points[wi] - points[wq] == d * G (reduced coordinates, on
+  the curve) and the cached table is correct, then BOTH result[wi] and result[wq] are not None - whatever other_points
+  holds.  The argument: position len(other) + wq of `negated` is -points[wq]; BatchAddX gives the x-coordinate of d * G,
+  a key of the table (|d| < max_diff <= table size); Negate(negated[j]) is points[wq] again; Subtract gives d * G; one of
+  the candidates v, -v multiplies G to it, the comparison diff == diff2 succeeds and both slots are written."""
+  params = {"points": "list[tuple[int,int]]", "other_points": "Optional[list[tuple[int,int]]]", "max_diff": "int"}
+  self_fields = dict(F, _table="dict[int,int]", _table_size="int")
+  returns = "list[Optional[str]]"
+  requires = CURVE_REQ + ["self._table_size >= 0", "wf_point(self.g) and self.g[0] is not None", _RED_G]
+  spec_axioms = ["oncv(self, self.g[0], self.g[1])"]
+  raises = {"ArithmeticError": None}
+  ghost_params = {"wi": "int", "wq": "int", "wd": "int"}
+  ghost_requires = ["0 <= wq and wq < wi and wi < len(points)",
+                    "0 <= points[wi][0] and points[wi][0] < self.mod and 0 <= points[wi][1] and points[wi][1] < self.mod",
+                    "0 <= points[wq][0] and points[wq][0] < self.mod and 0 <= points[wq][1] and points[wq][1] < self.mod",
+                    "oncv(self, points[wi][0], points[wi][1]) and oncv(self, points[wq][0], points[wq][1])",
+                    "0 - max_diff < wd and wd < max_diff",
+                    f"gadd(self, {_Pi}, gneg(self, {_Pq})) == gmul(self, wd, {_E})",
+                    f"gmul(self, wd, {_E}) != gzero(self)",
+                    f"table_ok(self, self._table, self._table_size, {_E})"]
+  ghost_ensures = [("C10", "result[wi] is not None and result[wq] is not None")]
+  entry_ghost = ["g_V = 0", "g_VD = True", "g_VN = True"]
+  INV = ["len(res) == len(points)", "len(negated) == len(other_points) + i",
+         "forall(k, 0, i, negated[len(other_points) + k][0] == points[k][0] and "
+         "negated[len(other_points) + k][1] == (0 - points[k][1]) % self.mod)",
+         "forall(k, 0, len(negated), wf_point(negated[k]))", "self._table_size >= max_diff",
+         ("C10", f"table_ok(self, self._table, self._table_size, {_E})"),
+         ("C10", f"implies(i > wi, {_DONE})")]
+  on_call = {
+      BAX: [
+          "begin_scope",
+          "let ON = i == wi",
+          "let JN = len(other_points) + wq",
+          f"let GD = gmul(self, wd, {_E})", f"let GN = gmul(self, 0 - wd, {_E})",
+          "let AD = wd if wd >= 0 else 0 - wd",
+          "implies(ON, " + axg("elt_neg", "points[wq][0]", "points[wq][1]") + ")",
+          "assert [C10] implies(ON, negated[JN][0] is not None and oncv(self, negated[JN][0], negated[JN][1]) and "
+          f"elt(self, negated[JN][0], negated[JN][1]) == gneg(self, {_Pq}))",
+          "assert [C10] implies(ON, gadd(self, eltp(self, p), eltp(self, negated[JN])) == GD)",
+          "implies(ON, " + axg("gmul_negate", "wd", _E) + " and " + axg("gx_neg", "GD") + " and " + axg("gneg_zero", "GD") + ")",
+          f"assert [C10] implies(ON, gmul(self, AD, {_E}) == GD or gmul(self, AD, {_E}) == GN)",
+          "assert [C10] implies(ON, ret[JN] is not None and ret[JN] == gxc(self, GD))",
+          "assert [C10] implies(ON, dict_has(self._table, ret[JN]))",
+          f"let VV = gmul(self, self._table[ret[JN]], {_E}) if ON else gzero(self)",
+          "implies(ON, " + axg("gx_inj", "VV", "GD") + ")",
+          "assert [C10] implies(ON, VV == GD or VV == GN)",
+          "end_scope",
+          "g_V = self._table[ret[len(other_points) + wq]] if i == wi else 0",
+          f"g_VD = (gmul(self, g_V, {_E}) == gmul(self, wd, {_E})) if i == wi else True",
+          f"g_VN = (gmul(self, g_V, {_E}) == gmul(self, 0 - wd, {_E})) if i == wi else True",
+          "assert [C10] implies(i == wi, g_VD or g_VN)"],
+      NEGF: [
+          # q = Negate(negated[j]) is points[wq] again: (-((-y) % m)) % m == y for a reduced y
+          "let ONQ = defined('x') and defined('j') and i == wi and j == len(other_points) + wq",
+          "implies(ONQ, divmod_def(0 - points[wq][1], self.mod) and divmod_def(0 - negated[j][1], self.mod))",
+          "assert [C10] implies(ONQ, ret[0] == points[wq][0] and ret[1] == points[wq][1])"],
+      SUBF: [
+          "let ONS = i == wi and j == len(other_points) + wq",
+          f"assert [C10] implies(ONS, ret[0] is not None and elt(self, ret[0], ret[1]) == gmul(self, wd, {_E}) and "
+          "0 <= ret[0] and ret[0] < self.mod and 0 <= ret[1] and ret[1] < self.mod)"],
+      MUL: [
+          "begin_scope",
+          "let ON = defined('diff') and i == wi and j == len(other_points) + wq",
+          "let d_ = args[1] if ON else 0",
+          f"let E_ = {_E}",
+          "implies(ON, " + axg("gmul_negate", "d_", "E_") + " and " + axg("gmul_negate", "0 - wd", "E_") + " and " +
+          axg("gneg_zero", "gmul(self, d_, E_)") + " and " + axg("gmul_negate", "0 - d_", "E_") + " and " +
+          axg("gmul_negate", "g_V", "E_") + ")",
+          "assert [C10] implies(ON and ((d_ == g_V and g_VD) or (d_ == 0 - g_V and g_VN)), "
+          "gmul(self, d_, E_) == gmul(self, wd, E_))",
+          "implies(ON and ret[0] is not None and diff[0] is not None, " + axg("elt_inj", "ret[0]", "ret[1]", "diff[0]", "diff[1]") + ")",
+          "implies(ON and diff[0] is not None, " + axg("elt_finite", "diff[0]", "diff[1]") + ")",
+          "assert [C10] implies(ON and ((d_ == g_V and g_VD) or (d_ == 0 - g_V and g_VN)), "
+          "ret[0] is not None and ret[0] == diff[0] and ret[1] == diff[1])",
+          "end_scope"]}
+  loops = {0: dict(invariant=INV, types={"res": "list[Optional[str]]", "negated": "list[point]"},
+                   keep={"g_V", "g_VD", "g_VN"}),
+           1: dict(invariant=INV + [("C10", f"implies(i == wi and j > len(other_points) + wq, {_DONE})")],
+                   types={"res": "list[Optional[str]]"}, keep={"negated", "g_V", "g_VD", "g_VN"})}
+  var_types = {"res": "list[Optional[str]]", "negated": "list[point]"}
+  feasibility = False
+  props = ["C10"]
